@@ -39,6 +39,11 @@ func selfTest(p *PropertyDef, variantsDir, repo string) (okN, skipN int, fails [
 		if v.Property == p.ID {
 			mine = append(mine, v)
 		}
+		// behaviour-preserving refactorings must be silent for every property: they are run against all
+		// properties at once, hosted by C06's thorough check
+		if v.Property == "*" && p.ID == "C06" {
+			mine = append(mine, v)
+		}
 	}
 	self, _ := os.Executable()
 	var mu sync.Mutex
@@ -95,6 +100,9 @@ func runVariant(self, repo, variantsDir, prop string, v variant) (string, string
 	if out, err := ap.CombinedOutput(); err != nil {
 		_ = out
 		return "skip", "patch does not apply"
+	}
+	if v.Property == "*" {
+		prop = "all"
 	}
 	cmd := exec.Command(self, "-repo", dst, "-property", prop, "-tier", "quick", "-no-selftest", "-evidence-dir", filepath.Join(tmp, "ev"))
 	out, _ := cmd.CombinedOutput()
